@@ -33,27 +33,26 @@ class Semaphore {
 
     //! 请求资源，注意：只能是协程调用
     bool acquire () {
-        if (count_ == 0) {      //! 如果没有资源，则等待
+        while (count_ == 0) {   //! 如果没有资源，则等待
+            //! 每次进入等待前都要重新登记：被唤醒后资源可能已被别的协程取走
             token_.push(sch_.getToken());
-            do {
-                sch_.wait();
-                if (sch_.isCanceled())
-                    return false;
-            } while (count_ == 0);
+            sch_.wait();
+            if (sch_.isCanceled())
+                return false;
         }
 
         --count_;
         return true;
     }
 
-    //! 释放资源
     void release() {
-        if (count_ == 0 && !token_.empty()) {
-            auto t = token_.front();
-            token_.pop();
-            sch_.resume(t);
-        }
         ++count_;
+        //! 唤醒所有等待者，由它们自己重新检查资源；
+        //! 只在 count_ 由0变1时唤醒一个的话，连续 release() 会让后面的等待者永远得不到唤醒
+        while (!token_.empty()) {
+            sch_.resume(token_.front());
+            token_.pop();
+        }
     }
 
     inline bool count() const { return count_; }
